@@ -40,6 +40,16 @@ CLAIMS = {
         ),
         design_ref="DESIGN.md §4 C02",
     ),
+    "C18": dict(
+        technique="static analysis: derived table of timing-relevant channel fields (attribute-read closure from the scheduler through properties/methods) compared with the fields checked under strict; effect rule on the switch helpers",
+        text=(
+            "Decides the structural necessary condition of 'strict switching returns an identical timeline or raises': every Channel/EOM field the scheduler reads outside pure rejection guards (derived on each run: "
+            "mod_bandwidth, clock_period, min_duration, custom_phase_jump_time, retarget times, EOM buffer/bandwidth) is compared under strict=True (directly or via a compared property) or a whole-timeline "
+            "comparison dominates the strict return; and switch_device/switch_register build the new sequence only by replaying the complete call log through the public API. "
+            "Equality of samples is runtime and is not decided."
+        ),
+        design_ref="DESIGN.md §4 C18",
+    ),
     "C04": dict(
         technique="static analysis: multi-way table agreement (abstract interpretation of serializer branches, deserializer branch keys/defaults, JSON-schema definitions, method signatures, operator tables), all extracted from source on every run",
         text=(
